@@ -150,7 +150,151 @@ def standin_rowsum(tier, seed):
     return dict(function="cirq-core/cirq/qis/clifford_tableau.py:CliffordTableau._rowsum", case="rowsum", bound="all row pairs for n = 1, 2 (exhaustive)",
                 cases=cases, distinct=cases, failures=len(fails), exhaustive=True, _fails=fails[:3])
 standin_rowsum.prop = "C13"
-STANDINS = [standin_clifford_circuits, standin_single_qubit_group, standin_rowsum]
+class _ForcedBit:
+    """prng whose single allowed draw `randint(2)` returns the forced bit; counts draws"""
+
+    def __init__(self, bit):
+        self.bit, self.draws = bit, 0
+
+    def randint(self, *a, **k):
+        self.draws += 1
+        if a != (2,) or k:
+            raise AssertionError(f"unexpected draw randint{a}{k}")
+        return self.bit
+
+
+def _all_tableaux(n):
+    """every valid n-qubit tableau (destabilizers + stabilizers + signs): closure of the initial tableau under the proved update rules"""
+    import cirq
+
+    def key(t):
+        return t.xs.tobytes() + t.zs.tobytes() + t.rs.tobytes()
+
+    gens = [("apply_h", (q,)) for q in range(n)] + [("apply_z", (q, 0.5)) for q in range(n)] + [("apply_x", (q,)) for q in range(n)] + [("apply_z", (q,)) for q in range(n)]
+    gens += [("apply_cx", (a, b)) for a in range(n) for b in range(n) if a != b]
+    t0 = cirq.CliffordTableau(n)
+    seen, work = {key(t0): t0}, [t0]
+    while work:
+        t = work.pop()
+        for name, args in gens:
+            u = t.copy()
+            getattr(u, name)(*args)
+            k = key(u)
+            if k not in seen:
+                seen[k] = u
+                work.append(u)
+    return list(seen.values())
+
+
+def _row_matrix(t, i):
+    from contracts.C13_tableau import _pauli
+
+    n = t.n
+    return (-1) ** int(t.rs[i]) * _pauli(tuple(int(b) for j in range(n) for b in (t.xs[i, j], t.zs[i, j])))
+
+
+def _state_of(t):
+    """the state stabilised by rows n..2n-1 (product of the projectors (1+S)/2 applied to basis vectors)"""
+    n = t.n
+    P = np.eye(2 ** n, dtype=complex)
+    for i in range(n, 2 * n):
+        P = P @ (np.eye(2 ** n) + _row_matrix(t, i)) / 2
+    for b in range(2 ** n):
+        v = P[:, b]
+        if np.linalg.norm(v) > 1e-9:
+            return v / np.linalg.norm(v)
+    return None
+
+
+def _tableau_problem(t):
+    """None, or why `t` is not a stabilizer/destabilizer pair: Hermitian rows, stabilizers commute, destabilizers commute, D_i anticommutes with S_i only"""
+    n = t.n
+    rows = [_row_matrix(t, i) for i in range(2 * n)]
+    for i in range(2 * n):
+        if not np.allclose(rows[i] @ rows[i], np.eye(2 ** n)):
+            return f"row {i} is not a Hermitian Pauli product"
+        for j in range(i + 1, 2 * n):
+            anti = (j == i + n)
+            c = rows[i] @ rows[j] - (-1 if anti else 1) * rows[j] @ rows[i]
+            if not np.allclose(c, 0):
+                return f"rows {i} and {j} should {'anti' if anti else ''}commute"
+    return None
+
+
+def standin_tableau_measure(tier, seed):
+    """CliffordTableau._measure on EVERY valid tableau of 1 and 2 qubits (and seeded 3-qubit ones), each qubit, each forced random bit:
+    outcome possible under the Born rule, exactly one fair draw iff the outcome is random, and the new tableau is a valid
+    stabilizer/destabilizer pair whose stabilizers stabilise the projected state."""
+    rng = random.Random(seed)
+    cases, fails = 0, []
+    pools = {1: _all_tableaux(1), 2: _all_tableaux(2)}
+    t3 = _all_tableaux_sample(3, rng, 40 if tier == "quick" else 600)
+    if tier == "quick":
+        pools[2] = rng.sample(pools[2], 1500)
+    pools[3] = t3
+    for n, pool in pools.items():
+        for t in pool:
+            psi = _state_of(t)
+            for q in range(n):
+                Z = np.eye(1)
+                for j in range(n):
+                    Z = np.kron(Z, np.diag([1, -1]) if j == q else np.eye(2))
+                ez = float(np.real(np.vdot(psi, Z @ psi)))
+                for bit in (0, 1):
+                    u = t.copy()
+                    prng = _ForcedBit(bit)
+                    out = u._measure(q, prng)
+                    cases += 1
+                    args = dict(n=n, xs=t.xs.astype(int).tolist(), zs=t.zs.astype(int).tolist(), rs=t.rs.astype(int).tolist(), qubit=q, forced_bit=bit)
+                    p_out = (1 + (1 - 2 * out) * ez) / 2
+                    why = None
+                    if p_out < 1e-9:
+                        why = f"outcome {out} has Born probability 0 (<Z_q> = {ez:+.0f})"
+                    elif abs(ez) > 1 - 1e-9 and prng.draws != 0:
+                        why = "a deterministic outcome consumed a random draw"
+                    elif abs(ez) < 1e-9 and (prng.draws != 1 or out != bit):
+                        why = f"a 50/50 outcome must be exactly the one fair draw (draws={prng.draws}, outcome={out}, bit={bit})"
+                    else:
+                        why = _tableau_problem(u)
+                        if why is None:
+                            proj = (np.eye(2 ** n) + (1 - 2 * out) * Z) / 2 @ psi
+                            proj = proj / np.linalg.norm(proj)
+                            for i in range(n, 2 * n):
+                                if not np.allclose(_row_matrix(u, i) @ proj, proj, atol=1e-9):
+                                    why = f"stabilizer row {i} after the measurement does not stabilise the projected state"
+                                    break
+                    if why and len(fails) < 3:
+                        fails.append(dict(args=args, failed="tableau-measure", clause=f"CliffordTableau._measure({q}): {why}"))
+    nf = len(fails)
+    return dict(function="cirq-core/cirq/qis/clifford_tableau.py:CliffordTableau._measure", case="tableau-measure",
+                bound=("all 24x4... valid tableaux: n=1 (%d), n=2 (%d%s), seeded n=3 (%d); each qubit, both values of the random bit"
+                       % (len(pools[1]), len(pools[2]), " sampled of 11520" if tier == "quick" else ", exhaustive", len(pools[3]))).replace("all 24x4... ", ""),
+                cases=cases, distinct=cases, failures=nf, exhaustive=(tier != "quick"), _fails=fails[:3])
+standin_tableau_measure.prop = "C13"
+
+
+def _all_tableaux_sample(n, rng, count):
+    import cirq
+
+    out = []
+    for _ in range(count):
+        t = cirq.CliffordTableau(n)
+        for _ in range(rng.randrange(3, 14)):
+            r = rng.random()
+            if r < 0.4:
+                a, b = rng.sample(range(n), 2)
+                t.apply_cx(a, b)
+            elif r < 0.6:
+                t.apply_h(rng.randrange(n))
+            elif r < 0.8:
+                t.apply_z(rng.randrange(n), rng.choice([0.5, 1, 1.5]))
+            else:
+                t.apply_x(rng.randrange(n), rng.choice([0.5, 1, 1.5]))
+        out.append(t)
+    return out
+
+
+STANDINS = [standin_clifford_circuits, standin_single_qubit_group, standin_rowsum, standin_tableau_measure]
 
 
 def _replay_tableau(ob, seed):
